@@ -148,6 +148,12 @@ def cmd_name(code, data):
     return CMDNAME.get(code, "%02X" % code)
 
 
+def _crc_a(data):
+    from .chip_crc import crc_a_bytes
+    return crc_a_bytes(data)
+
+
+REG_TXMODE, REG_RXMODE = 0x6302, 0x6303
 REG_FIFODATA, REG_FIFOLEVEL, REG_COMMIRQ, REG_DIVIRQ, REG_COMMAND = 0x6339, 0x633A, 0x6334, 0x6335, 0x6331
 
 FIRMWARE = {"pn531": b"\x03\x04", "pn532": b"\x32\x01\x06\x07", "pn533": b"\x33\x02\x07\x07",
@@ -182,6 +188,13 @@ class SimPn53x(object):
         self.ncmd = 0
         self.force_ext = False
         self._rx_pending = False
+        # optional Type A card in the field (C14, CRC ownership): tag = dict(sens_res, sel_res, uid);
+        # air = its answer on the air INCLUDING CRC_A.  With `air` set, InCommunicateThru honours RxCRCEn
+        # (CIU_RxMode bit 7): enabled -> the CIU verifies and strips CRC_A (status 02h if wrong);
+        # disabled -> the raw frame, CRC bytes included, good or bad, goes to the host.
+        self.tag = None
+        self.air = None
+        self.chip_checked_crc = 0
 
     # ---- scripting -------------------------------------------------------------------------
     def arm(self, fault=None):
@@ -277,7 +290,21 @@ class SimPn53x(object):
         if code == 0x58:
             return None
         if code == 0x4A:
+            if self.tag is not None and len(data) >= 2 and data[1] == 0:      # 106 kbps Type A
+                t = self.tag
+                self.regs[REG_TXMODE] = 0x80                                  # firmware: TxCRCEn / RxCRCEn on
+                self.regs[REG_RXMODE] = 0x80
+                return (b"\x01\x01" + bytes(t["sens_res"]) + bytes(t["sel_res"]) +
+                        bytes([len(t["uid"])]) + bytes(t["uid"]))
             return b"\x00"
+        if code == 0x42 and self.air is not None:
+            air = bytes(self.air)
+            if self.regs.get(REG_RXMODE, 0) & 0x80:
+                self.chip_checked_crc += 1
+                if len(air) < 3 or _crc_a(air[:-2]) != air[-2:]:
+                    return b"\x02"                                            # CRC error detected by the CIU
+                return b"\x00" + air[:-2]
+            return b"\x00" + air
         if code in (0x40, 0x42, 0xA0):
             return b"\x00" + bytes(self.rf_rsp)
         if code in (0x46, 0x56, 0x50):
